@@ -328,6 +328,8 @@ func tryBuildLimit(c LimitCfg, reg core.MetricRegistry) (built, error) {
 			noLoad = measurements.NewExponentialAverageMeasurement(20, 3)
 		case "minimum":
 			noLoad = &measurements.MinimumMeasurement{} // the caller's own instance of what the library would have built itself
+		case "minimum-wrapped":
+			noLoad = &wrappedMinimum{} // the same measurement behind a type of the caller's own (instrumentation, say)
 		}
 		inner = limit.NewVegasLimitWithRegistry("t", c.arg("initial", c.Initial), noLoad, c.arg("max", c.Max), c.argF("smoothing", c.Smoothing), vegasIntFn(c.VAlpha), vegasIntFn(c.VBeta), vegasIntFn(c.VThr), vegasFloatFn(c.VInc), vegasFloatFn(c.VDec), c.ProbeMult, logger, reg)
 	case "gradient":
@@ -383,6 +385,14 @@ func tryBuildLimit(c LimitCfg, reg core.MetricRegistry) (built, error) {
 }
 
 // debugDiscardLogger: a limit.Logger with debug output enabled; the formatted text is built and dropped.
+// wrappedMinimum is a caller's measurement type with the meaning of the library's minimum (it delegates to one).
+type wrappedMinimum struct{ m measurements.MinimumMeasurement }
+
+func (w *wrappedMinimum) Add(v float64) (float64, bool)  { return w.m.Add(v) }
+func (w *wrappedMinimum) Get() float64                   { return w.m.Get() }
+func (w *wrappedMinimum) Reset()                         { w.m.Reset() }
+func (w *wrappedMinimum) Update(f func(float64) float64) { w.m.Update(f) }
+
 type debugDiscardLogger struct{}
 
 func (debugDiscardLogger) Debugf(msg string, params ...interface{}) { _ = fmt.Sprintf(msg, params...) }
@@ -556,7 +566,7 @@ func genSamples(t *rapid.T, c LimitCfg, maxN int) []Sample {
 			s.Start = rapid.Int64Range(0, 200_000_000).Draw(t, "dt") // made cumulative below
 		} else if startsOutOfOrder {
 			// completions are reported in any order relative to when their requests started
-			s.Start = rapid.Int64Range(0, 1<<40).Draw(t, "start")
+			s.Start = rapid.OneOf(rapid.Int64Range(0, 1<<40), rapid.Int64Range(0, 1<<40), rapid.SampledFrom([]int64{-1, -1, math.MinInt64})).Draw(t, "start") // (-1: "no start time", as the library's own callers write it)
 		}
 		return s
 	})
